@@ -124,6 +124,21 @@ func litmusPrograms() []litmus {
 			}
 			return inst([]func(){holder, waiter}, func() string { return res })
 		}},
+		{name: "trylock-and-tryacquire", outcomes: []string{"1", "2"}, make: func() *sched.Instance {
+			var mu zvsync.Mutex
+			sem := zvsync.NewWeighted(1)
+			x := 0
+			f := func() {
+				if mu.TryLock() {
+					if sem.TryAcquire(1) {
+						x++
+						sem.Release(1)
+					}
+					mu.Unlock()
+				}
+			}
+			return inst([]func(){f, f}, func() string { return fmt.Sprint(x) })
+		}},
 		{name: "rwmutex-writer-excludes-readers", outcomes: []string{"ok"}, make: func() *sched.Instance {
 			var mu zvsync.RWMutex
 			x, bad := 0, false
